@@ -415,15 +415,17 @@ def plans_for(ctx):
     if ctx.prop == "C16":
         # the mapping refinement does not depend on the section index
         return [("symexpr", SymExprScenario(), None)]
+    # (the small depth-bounded exploration first: a loaded machine must not
+    # cut it off behind the big fix-point)
     if ctx.tier == "quick":
-        return [("symexpr", SymExprScenario(), None),
-                ("symexpr(index in state, depth<=4)",
-                 SymExprScenario(index_focus=True), 3)]
-    return [("symexpr", SymExprScenario(), None),
+        return [("symexpr(index in state, depth<=4)",
+                 SymExprScenario(index_focus=True), 3),
+                ("symexpr", SymExprScenario(), None)]
+    return [("symexpr(index in state, depth<=6)",
+             SymExprScenario(index_focus=True), 5),
+            ("symexpr", SymExprScenario(), None),
             ("symexpr(3 exprs, key 2^64-1)",
-             SymExprScenario(keys=(0, 3), nexpr=3, big=True), None),
-            ("symexpr(index in state, depth<=6)",
-             SymExprScenario(index_focus=True), 5)]
+             SymExprScenario(keys=(0, 3), nexpr=3, big=True), None)]
 
 
 def run(ctx, prop=None):
